@@ -3,9 +3,9 @@
 // multiplies every output sample by 10^(v/20) and changes nothing else"; C02: a frame's samples depend on nothing that
 // was in the caller's buffer).  synthesize itself is decided by Verus unit vocoder (out of CBMC's reach); the statement
 // between the coefficient update loop and the end of the per-sample closure is cut from the text on every run (SLICE)
-// and evaluated for ALL values of the filter output x, the linear volume and the previous buffer content: the sample
-// must be x * volume bit for bit (either operand order), whatever was in the buffer.  Loop-free: complete.
-//@harness name=output_sample_is_filter_output_times_volume tier=quick label=proved props=C16,C02 timeout=900
+// and evaluated for ALL values of the filter output x and of the previous buffer content, at four volumes: the sample
+// must be x * volume bit for bit, whatever was in the buffer.
+//@harness name=output_sample_is_filter_output_times_volume tier=quick label=bounded(volumes-1-2-0.5-0.25,all-x,all-buffer-contents) props=C16,C02 timeout=900
 use super::*;
 
 pub struct SVoc { volume: f64 }
@@ -18,14 +18,12 @@ impl SVoc {
     }
 }
 
-#[kani::proof]
-fn output_sample_is_filter_output_times_volume() {
-    let v = SVoc { volume: kani::any() };
+fn check_volume(volume: f64) {
+    let v = SVoc { volume };
     let x: f64 = kani::any();
     let before: f64 = kani::any();
-    kani::assume(!x.is_nan() && !v.volume.is_nan());
-    let want = x * v.volume;
-    kani::assume(!want.is_nan());
+    kani::assume(!x.is_nan());
+    let want = x * volume;
     let mut buf = [before, before];
     v.sample_zero_stage(&mut buf, 1, x);
     assert!(buf[1].to_bits() == want.to_bits() && buf[0].to_bits() == before.to_bits());
@@ -34,4 +32,15 @@ fn output_sample_is_filter_output_times_volume() {
     assert!(buf2[0].to_bits() == want.to_bits() && buf2[1].to_bits() == before.to_bits());
     kani::cover!(want > 40000.0);
     kani::cover!(before != 0.0);
+}
+
+/// every filter output x and every previous buffer content; volumes 1, 2, 0.5 and 0.25 (a fully symbolic volume makes
+/// the product a 53 x 53 bit multiplier: 4 minutes on the unchanged tree, 13 on a changed one; the general volume is the
+/// `#gain` obligation of Verus unit vocoder)
+#[kani::proof]
+fn output_sample_is_filter_output_times_volume() {
+    check_volume(1.0);
+    check_volume(2.0);
+    check_volume(0.5);
+    check_volume(0.25);
 }
